@@ -505,6 +505,21 @@ pub fn run<T: 'static>(cfg: &SimConfig, main: impl Future<Output = T> + 'static)
     };
     STATE.with(|s| *s.borrow_mut() = Some(st));
     interpose::activate(cfg.entropy_seed, cfg.entropy_mode, cfg.epoch_s);
+    // a panic that unwinds out of the run (reported by the supervisor as `<ID>.panic`) must not
+    // leave the thread "inside a simulation" for the next run of the block
+    struct Unwind;
+    impl Drop for Unwind {
+        fn drop(&mut self) {
+            if std::thread::panicking() {
+                interpose::deactivate();
+                if let Ok(st) = STATE.try_with(|s| s.try_borrow_mut().ok().and_then(|mut b| b.take())) {
+                    // the tasks may hold objects whose destructors call back into the state
+                    std::mem::forget(st);
+                }
+            }
+        }
+    }
+    let _unwind = Unwind;
 
     let result: Arc<Mutex<Option<T>>> = Arc::new(Mutex::new(None));
     let r2 = result.clone();
